@@ -47,7 +47,10 @@ CONFIG = {
              "(one child edge of the seed contracted -> trifurcating seed); DNA/RNA/protein/standard matrices built "
              "with <Type>CharacterMatrix.from_dict, 1-6 (thorough 1-12) columns, every cell drawn from the type's full "
              "symbol set (fundamental states, gap, missing, every ambiguity code, case synonyms) with a per-column "
-             "2-3 state palette so columns are informative; weights None or ints 0-5; gaps_as_missing True/False/"
+             "2-3 state palette so columns are informative; weights None, ints 0-5, ints mixed with dyadic fractions "
+             "(0.125 .. 3.75, exact arithmetic, exact comparison) or with decimal fractions (0.1, 0.3, 0.7, 1.1, 2.6, "
+             "compared with relative tolerance 1e-9), plus the clause 'all weights x k => score x k' for k in "
+             "0.25/0.5/1.5/2/4 wherever weights are passed; gaps_as_missing True/False/"
              "default.  score: non-trivial = tree with >= 3 leaves and at least one column needing >= 1 change; "
              "distinct = (shape, rows, type, weights, gap flag).  history: non-trivial = some call whose expected score "
              "differs from the expected score of the preceding call on the same tree object; distinct = whole case.  "
@@ -63,6 +66,9 @@ CONFIG = {
              "0-9, ab, ba0) joined by StandardCharacterMatrix.concatenate; non-trivial = >= 2 distinct alphabets, a gap "
              "or missing symbol in columns of two different alphabets, and >= 1 change."),
     "assumptions": [
+        "weights may be any real numbers (the unchanged library adds the weight once per change and returns int, "
+        "float or Fraction accordingly); generated: non-negative ints and floats; negative weights, bools and "
+        "Fractions are not generated",
         "char_indices is passed as a re-iterable (list, tuple, range) only: the unchanged library iterates it once "
         "per taxon, so a one-shot iterator leaves every taxon after the first with an empty list (observed, not "
         "asserted either way)",
@@ -364,6 +370,77 @@ def weighted(changes, weights):
     return [w * c for w, c in zip(weights, changes)]
 
 
+# Weights are ints, dyadic floats (multiples of 1/8: every product and sum met here is exact in binary floating
+# point, so equality stays exact) or decimal floats such as 0.1 (the library adds a weight once per change, the
+# oracle multiplies: compared with relative tolerance 1e-9).
+INT_WEIGHTS = [0, 1, 1, 2, 3, 4, 5]
+DYADIC_WEIGHTS = [0.5, 0.25, 2.25, 1.5, 0.125, 3.75, 0.75]
+DECIMAL_WEIGHTS = [0.1, 0.3, 0.7, 1.1, 2.6]
+SCALES = [0.5, 2, 0.25, 1.5, 4]
+TOL = 1e-9
+
+
+def exact_value(x):
+    return isinstance(x, int) or (isinstance(x, float) and float(x * 4096).is_integer())
+
+
+def neq(a, b):
+    """Equality of two scores: exact when both are exactly representable small dyadic numbers, else within TOL."""
+    if isinstance(a, bool) or isinstance(b, bool) or not isinstance(a, (int, float)) or not isinstance(b, (int, float)):
+        return False
+    if exact_value(a) and exact_value(b):
+        return a == b
+    return abs(a - b) <= TOL * (1.0 + abs(b))
+
+
+def leq(a, b):
+    if a is None or b is None:
+        return a is None and b is None
+    return isinstance(a, list) and len(a) == len(b) and all(neq(x, y) for x, y in zip(a, b))
+
+
+def weight_class(weights):
+    if weights is None:
+        return "none"
+    if all(isinstance(w, int) for w in weights):
+        return "ints_with0" if 0 in weights else "ints_positive"
+    if all(exact_value(w) for w in weights):
+        return "dyadic_fractions"
+    return "decimal_fractions"
+
+
+def check_scaling(ctx, key, score_fn, weights, nchar, k, got, lst, desc):
+    """Metamorphic: all weights multiplied by k => total and per-character scores multiplied by k.
+    score_fn(weights) -> (total, per-character list or None) on freshly built objects."""
+    base = [1] * nchar if weights is None else list(weights)
+    scaled = [w * k for w in base]
+    got_k, lst_k = score_fn(scaled)
+    ctx.check(neq(got_k, got * k) and (lst is None or leq(lst_k, [x * k for x in lst])),
+              "multiplying every weight by k multiplies the score by k", key,
+              lambda: "weights %r give %r %r, weights x %r = %r give %r %r; %s" % (
+                  weights, got, lst, k, scaled, got_k, lst_k, desc()))
+    ctx.cls("scaling_clause_evaluated")
+    if got and not all(float(w).is_integer() for w in scaled):
+        ctx.cls("scaling_clause_with_fractional_weight_and_nonzero_score")
+
+
+@st.composite
+def weight_vectors(draw, size, allow_none=True):
+    """None, or `size` weights: all ints / ints + dyadic fractions / anything incl. decimal fractions."""
+    kind = draw(st.sampled_from((["none", "none"] if allow_none else []) + ["ints", "ints", "dyadic", "dyadic",
+                                                                            "decimal"]))
+    if kind == "none":
+        return None
+    if kind == "ints":
+        el = st.sampled_from(INT_WEIGHTS)
+    elif kind == "dyadic":
+        el = st.one_of(st.sampled_from(INT_WEIGHTS), st.sampled_from(DYADIC_WEIGHTS), st.sampled_from(DYADIC_WEIGHTS))
+    else:
+        el = st.one_of(st.sampled_from(INT_WEIGHTS), st.sampled_from(DYADIC_WEIGHTS), st.sampled_from(DECIMAL_WEIGHTS),
+                       st.sampled_from(DECIMAL_WEIGHTS))
+    return draw(st.lists(el, min_size=size, max_size=size))
+
+
 def call_score(tree, mat, gam, weights, per_char):
     from dendropy.model import parsimony
     kw = {}
@@ -433,7 +510,7 @@ def check_score(ctx, case):
     ctx.cls("score.rooting:" + rooting)
     ctx.cls("score.leaves:" + size_class(n))
     ctx.cls("score.gam:%s" % gam_arg)
-    ctx.cls("score.weights:" + ("none" if weights is None else "with0" if 0 in weights else "positive"))
+    ctx.cls("score.weights:" + weight_class(weights))
     ctx.cls("score.total:" + ("0" if sum(changes) == 0 else "1-3" if sum(changes) <= 3 else "4+"))
     cells = "".join(m["rows"])
     if GAP in cells:
@@ -473,14 +550,19 @@ def check_score(ctx, case):
     # the down-pass docstring asks for a bifurcating root, see CONFIG["assumptions"])
     tri = "" if rooting == "rooted" else "_trifurcating_seed"
     got, lst = call_score(tree, mat, gam_arg, weights, True)
-    ctx.check(got == want, "score equals the weighted minimum number of changes", "C16.score_minimal" + tri,
+    ctx.check(neq(got, want), "score equals the weighted minimum number of changes", "C16.score_minimal" + tri,
               lambda: "got %r want %r (per column minimal changes %r); %s" % (got, want, changes, desc()))
     ctx.check(isinstance(lst, list) and len(lst) == nchar, "per-character list has one entry per column",
               "C16.per_char_len", lambda: "list %r for %d columns; %s" % (lst, nchar, desc()))
-    ctx.check(sum(lst) == got, "per-character scores add up to the total", "C16.per_char_sum",
+    ctx.check(neq(sum(lst), got), "per-character scores add up to the total", "C16.per_char_sum",
               lambda: "sum(%r) = %r but total %r; %s" % (lst, sum(lst), got, desc()))
-    ctx.check(list(lst) == want_list, "per-character scores are the weighted per-column minima",
+    ctx.check(leq(list(lst), want_list), "per-character scores are the weighted per-column minima",
               "C16.per_char_values", lambda: "got %r want %r; %s" % (lst, want_list, desc()))
+
+    # -- scaling the weights scales the score
+    check_scaling(ctx, "C16.weight_scaling" + tri,
+                  lambda w: call_score(build_tree(spec, ns, taxa, rooting), mat, gam_arg, w, True),
+                  weights, nchar, case.get("scale", 0.5), got, lst, desc)
 
     # -- inputs untouched
     rt_after = snap(ctx, tree, "after scoring")
@@ -495,7 +577,7 @@ def check_score(ctx, case):
     if gam_arg is not None:
         kw["gaps_as_missing"] = gam_arg
     got2 = treescore.parsimony_score(t2, mat, weights=(None if weights is None else tuple(weights)), **kw)
-    ctx.check(got2 == want, "score without per-character list (treescore route, tuple weights)",
+    ctx.check(neq(got2, want), "score without per-character list (treescore route, tuple weights)",
               "C16.score_minimal" + tri, lambda: "got %r want %r; %s" % (got2, want, desc()))
     tsm = mat.taxon_state_sets_map(gaps_as_missing=gam)
     for attr in (None, "c16_sets"):
@@ -503,7 +585,7 @@ def check_score(ctx, case):
         l3 = []
         got3 = parsimony.fitch_down_pass(t3.postorder_node_iter(), state_sets_attr_name=attr,
                                          taxon_state_sets_map=tsm, weights=weights, score_by_character_list=l3)
-        ctx.check(got3 == want and l3 == want_list, "fitch_down_pass on a fresh tree gives the same score",
+        ctx.check(neq(got3, want) and leq(l3, want_list), "fitch_down_pass on a fresh tree gives the same score",
                   "C16.down_pass_route" + tri, lambda: "attr=%r got %r %r want %r %r; %s" % (
                       attr, got3, l3, want, want_list, desc()))
 
@@ -516,7 +598,7 @@ def check_score(ctx, case):
     if rtp.canon(ordered=True) != rt.canon(ordered=True):
         ctx.cls("score.child_order_really_changed")
     gotp, lstp = call_score(tp, mat, gam_arg, weights, True)
-    ctx.check(gotp == got and lstp == lst, "score independent of child order", "C16.child_order" + tri,
+    ctx.check(neq(gotp, got) and leq(lstp, lst), "score independent of child order", "C16.child_order" + tri,
               lambda: "order %s gives %r %r, order %s gives %r %r; rows=%r weights=%r gam=%r" % (
                   rt.canon(ordered=True), got, lst, rtp.canon(ordered=True), gotp, lstp, m["rows"], weights, gam_arg))
 
@@ -538,7 +620,7 @@ def check_score(ctx, case):
             tr = build_tree(rr.to_spec(taxon_index=idx), ns, taxa, "rooted" if kind == "edge" else "unrooted")
             gotr, lstr = call_score(tr, mat, gam_arg, weights, True)
             nroot += 1
-            ctx.check(gotr == got and lstr == lst, "score independent of root position",
+            ctx.check(neq(gotr, got) and leq(lstr, lst), "score independent of root position",
                       "C16.rerooting" + ("_trifurcating_seed" if (tri or kind == "vertex") else ""),
                       lambda: "rooting %s gives %r %r, rooting %s (%s) gives %r %r; rows=%r weights=%r gam=%r" % (
                           rt.canon(ordered=True), got, lst, rr.canon(ordered=True), kind, gotr, lstr, m["rows"],
@@ -604,16 +686,21 @@ def check_history(ctx, case):
                 interesting = True
                 ctx.cls("history.expected_differs_from_previous_call")
         prev_want = (want, want_list)
-        ctx.check(fresh == want and (flst is None or flst == want_list),
+        ctx.check(neq(fresh, want) and (flst is None or leq(flst, want_list)),
                   "score of a freshly built tree equals the weighted minimum number of changes",
                   "C16.score_minimal" + ("" if rooting == "rooted" else "_trifurcating_seed"),
                   lambda: "fresh copy gives %r %r, oracle %r %r; tree=%s call=%r" % (
                       fresh, flst, want, want_list, rt.canon(ordered=True), log[-1]))
-        ctx.check(got == fresh and lst == flst,
+        ctx.check(neq(got, fresh) and leq(lst, flst),
                   "a call on an already-scored tree equals the score of a fresh copy",
                   "C16.history_equals_fresh" if route == "score" else "C16.history_equals_fresh_down_pass",
                   lambda: "call %d on the reused tree returned %r %r, a fresh copy of tree+matrix returns %r %r; "
                           "tree=%s history=%r" % (k, got, lst, fresh, flst, rt.canon(ordered=True), log))
+        ctx.cls("history.weights:" + weight_class(weights))
+        check_scaling(ctx, "C16.weight_scaling" + ("" if rooting == "rooted" else "_trifurcating_seed"),
+                      lambda w: fresh_score(ctx, spec, rooting, m, gam_arg, w, c["per_char"]),
+                      weights, len(m["rows"][0]), case.get("scale", 0.5), fresh, flst,
+                      lambda: "tree=%s call=%r" % (rt.canon(ordered=True), log[-1]))
         if c["up_pass_after"] and rooting == "rooted" and route == "score":
             parsimony.fitch_up_pass(tree.preorder_node_iter())
             ctx.cls("history.up_pass_between_calls")
@@ -702,11 +789,16 @@ def check_edits(ctx, case):
         want_list = weighted(changes, weights)
         want = sum(want_list)
         fresh, flst = fresh_score(ctx, spec, rooting, cur, gam_arg, weights, stp["per_char"])
-        ctx.check(fresh == want and (flst is None or flst == want_list),
+        ctx.check(neq(fresh, want) and (flst is None or leq(flst, want_list)),
                   "score of a freshly built tree + matrix equals the weighted minimum number of changes",
                   "C16.score_minimal" + tri,
                   lambda: "fresh copy gives %r %r, oracle %r %r; tree=%s rows=%r weights=%r gam=%r" % (
                       fresh, flst, want, want_list, rt.canon(ordered=True), cur["rows"], weights, gam_arg))
+        ctx.cls("edits.weights:" + weight_class(weights))
+        check_scaling(ctx, "C16.weight_scaling" + tri,
+                      lambda w: fresh_score(ctx, spec, rooting, cur, gam_arg, w, stp["per_char"]),
+                      weights, width, case.get("scale", 0.5), fresh, flst,
+                      lambda: "tree=%s rows=%r gam=%r" % (rt.canon(ordered=True), cur["rows"], gam_arg))
         results = []
         for where in stp["trees"]:
             t = tree if where == "same" else build_tree(spec, ns, taxa, rooting)
@@ -715,7 +807,7 @@ def check_edits(ctx, case):
         log.append({"step": k, "edit": e, "rows": cur["rows"], "extra_rows": cur["extra_rows"], "gam": gam_arg, "weights": weights,
                     "scores": results, "fresh": fresh, "oracle": want})
         for where, got, lst in results:
-            ctx.check(got == fresh and lst == flst,
+            ctx.check(neq(got, fresh) and leq(lst, flst),
                       "scoring a matrix object that was scored before and then edited in place equals scoring a "
                       "freshly built matrix with the same data", "C16.matrix_edit_equals_fresh",
                       lambda: "step %d (%s tree object): reused matrix object gives %r %r, fresh matrix + tree give "
@@ -798,10 +890,10 @@ def check_subset(ctx, case):
         lst = []
         got = parsimony.fitch_down_pass(t3.postorder_node_iter(), state_sets_attr_name=attr,
                                         taxon_state_sets_map=tsm, weights=weights, score_by_character_list=lst)
-        ctx.check(got == want, "score over a column selection equals the weighted minimum over the selected columns",
+        ctx.check(neq(got, want), "score over a column selection equals the weighted minimum over the selected columns",
                   "C16.subset_score_minimal" + tri,
                   lambda: "got %r want %r (minima of the selected columns %r); %s" % (got, want, changes, desc()))
-        ctx.check(lst == want_list and sum(lst) == got,
+        ctx.check(leq(lst, want_list) and neq(sum(lst), got),
                   "per-character list over a column selection follows the selection position by position",
                   "C16.subset_per_char" + tri, lambda: "got %r want %r; %s" % (lst, want_list, desc()))
     # consistency with the whole matrix: entry k is weight k times the score of column idx[k]
@@ -809,7 +901,7 @@ def check_subset(ctx, case):
     call = call_score(build_tree(spec, ns, taxa, rooting), mat, gam_arg, None, False)
     parsimony.fitch_down_pass(build_tree(spec, ns, taxa, rooting).postorder_node_iter(), state_sets_attr_name=None,
                               taxon_state_sets_map=full, score_by_character_list=lfull)
-    ctx.check(call[0] == sum(lfull) and want_list == weighted([lfull[j] for j in idx], weights),
+    ctx.check(call[0] == sum(lfull) and leq(want_list, weighted([lfull[j] for j in idx], weights)),
               "selection scores are the whole-matrix per-character scores of the selected columns",
               "C16.subset_vs_full" + tri, lambda: "whole matrix per character %r, selection expects %r; %s" % (
                   lfull, want_list, desc()))
@@ -826,7 +918,18 @@ def check_subset(ctx, case):
         ctx.cls("subset.bootstrap_replicate")
     if not rep_ and not unordered:
         ctx.cls("subset.sorted_duplicate_free")
-    ctx.cls("subset.weights:" + ("none" if weights is None else "uniform" if len(set(weights)) == 1 else "varied"))
+    ctx.cls("subset.weights:" + weight_class(weights))
+    if weights is not None and len(set(weights)) > 1:
+        ctx.cls("subset.weights_not_uniform")
+
+    def subset_score(w):
+        l = []
+        sc = parsimony.fitch_down_pass(build_tree(spec, ns, taxa, rooting).postorder_node_iter(),
+                                       state_sets_attr_name=None, taxon_state_sets_map=tsm, weights=w,
+                                       score_by_character_list=l)
+        return sc, l
+    check_scaling(ctx, "C16.weight_scaling" + tri, subset_score, weights, len(idx), case.get("scale", 0.5),
+                  want, want_list, desc)
     same_if_normalised = weighted([e[0] for e in expected_changes(
         rt, {"dtype": m["dtype"], "rows": ["".join(r[i] for i in sorted(set(idx))) for r in m["rows"]]}, gam)],
         None if weights is None else weights[:len(set(idx))])
@@ -886,10 +989,10 @@ def check_concat(ctx, case):
     tri = "" if rooting == "rooted" else "_trifurcating_seed"
 
     got, lst = call_score(tree, combined, gam_arg, weights, True)
-    ctx.check(got == want, "score of a matrix mixing state alphabets equals the weighted minimum number of changes",
+    ctx.check(neq(got, want), "score of a matrix mixing state alphabets equals the weighted minimum number of changes",
               "C16.concat_score_minimal" + tri,
               lambda: "got %r want %r (per column minima %r); %s" % (got, want, changes, desc()))
-    ctx.check(lst == want_list and sum(lst) == got,
+    ctx.check(leq(lst, want_list) and neq(sum(lst), got),
               "per-character scores of a matrix mixing state alphabets are the weighted per-column minima",
               "C16.concat_per_char" + tri, lambda: "got %r (total %r) want %r; %s" % (lst, got, want_list, desc()))
     # additivity over the partitions, each scored on its own fresh tree with its slice of the weights
@@ -900,11 +1003,16 @@ def check_concat(ctx, case):
         pos += w
         sc, _ = call_score(build_tree(spec, ns, taxa, rooting), mt, gam_arg, wslice, False)
         part_scores.append(sc)
-    ctx.check(got == sum(part_scores), "score of the concatenated matrix equals the sum of the partition scores",
+    ctx.check(neq(got, sum(part_scores)), "score of the concatenated matrix equals the sum of the partition scores",
               "C16.concat_equals_partition_sum" + tri,
               lambda: "concatenated %r, partitions %r; %s" % (got, part_scores, desc()))
 
+    check_scaling(ctx, "C16.weight_scaling" + tri,
+                  lambda w: call_score(build_tree(spec, ns, taxa, rooting), combined, gam_arg, w, True),
+                  weights, sum(widths), case.get("scale", 0.5), got, lst, desc)
+
     # -- bookkeeping
+    ctx.cls("concat.weights:" + weight_class(weights))
     funds = [p["dtype"] for p in parts]
     ctx.cls("concat.parts:%d" % len(parts))
     ctx.cls("concat.distinct_alphabets:%d" % len(set(funds)))
@@ -1065,7 +1173,7 @@ def matrices(draw, n, max_chars, unambiguous=False, dtypes=None, min_chars=1):
                 cell = st.sampled_from(T["all"])
         cols.append(draw(st.lists(cell, min_size=n, max_size=n)))
     rows = ["".join(cols[c][i] for c in range(nchar)) for i in range(n)]
-    weights = draw(st.one_of(st.none(), st.lists(st.integers(0, 5), min_size=nchar, max_size=nchar)))
+    weights = draw(weight_vectors(nchar))
     gam = draw(st.sampled_from([True, False, False, None]))
     return {"dtype": dtype, "rows": rows, "weights": weights, "gam": gam}
 
@@ -1075,7 +1183,7 @@ def score_cases(draw, max_leaves, max_chars):
     spec, rooting, n, k = draw(trees(max_leaves))
     m = draw_extra_rows(draw, draw(matrices(n, max_chars)), k)
     perm = shapes.permute_children(draw, spec)
-    return {"spec": spec, "rooting": rooting, "m": m, "perm_spec": perm}
+    return {"spec": spec, "rooting": rooting, "m": m, "perm_spec": perm, "scale": draw(st.sampled_from(SCALES))}
 
 
 @st.composite
@@ -1092,7 +1200,7 @@ def history_cases(draw, max_leaves, max_chars):
                       "per_char": draw(st.booleans()),
                       "route": draw(st.sampled_from(["score", "score", "score", "down_pass_no_attr"])),
                       "up_pass_after": draw(st.sampled_from([False, False, True]))})
-    return {"spec": spec, "rooting": rooting, "mats": mats, "calls": calls}
+    return {"spec": spec, "rooting": rooting, "mats": mats, "calls": calls, "scale": draw(st.sampled_from(SCALES))}
 
 
 @st.composite
@@ -1137,10 +1245,10 @@ def edit_cases(draw, max_leaves, max_chars):
                       "use_weights": draw(st.booleans()),
                       "per_char": draw(st.booleans()),
                       "trees": draw(st.sampled_from([["same"], ["fresh"], ["same", "fresh"], ["fresh", "same"]]))})
-    wpool = draw(st.lists(st.integers(0, 5), min_size=max_chars + 6, max_size=max_chars + 6))
+    wpool = draw(weight_vectors(max_chars + 6, allow_none=False))
     return {"spec": spec, "rooting": rooting,
             "m": {"dtype": m["dtype"], "rows": m["rows"], "extra_rows": m.get("extra_rows") or []},
-            "steps": steps, "wpool": wpool}
+            "steps": steps, "wpool": wpool, "scale": draw(st.sampled_from(SCALES))}
 
 
 @st.composite
@@ -1172,8 +1280,9 @@ def subset_cases(draw, max_leaves, max_chars):
             idx = draw(st.lists(col, min_size=1, max_size=nchar + 3))
         sel = {"as": kind, "idx": idx}
         size = len(idx)
-    weights = draw(st.one_of(st.none(), st.lists(st.integers(0, 5), min_size=size, max_size=size)))
-    return {"spec": spec, "rooting": rooting, "m": m, "sel": sel, "weights": weights}
+    weights = draw(weight_vectors(size))
+    return {"spec": spec, "rooting": rooting, "m": m, "sel": sel, "weights": weights,
+            "scale": draw(st.sampled_from(SCALES))}
 
 
 @st.composite
@@ -1187,9 +1296,10 @@ def concat_cases(draw, max_leaves, max_chars):
         m = draw_extra_rows(draw, draw(matrices(n, max(1, max_chars // 2), dtypes=std)), kint, always=kint)
         parts.append({"dtype": m["dtype"], "rows": m["rows"], "extra_rows": m.get("extra_rows") or []})
     total = sum(len(p["rows"][0]) for p in parts)
-    weights = draw(st.one_of(st.none(), st.lists(st.integers(0, 5), min_size=total, max_size=total)))
+    weights = draw(weight_vectors(total))
     gam = draw(st.sampled_from([True, False, False, None]))
-    return {"spec": spec, "rooting": rooting, "parts": parts, "weights": weights, "gam": gam}
+    return {"spec": spec, "rooting": rooting, "parts": parts, "weights": weights, "gam": gam,
+            "scale": draw(st.sampled_from(SCALES))}
 
 
 @st.composite
